@@ -153,7 +153,7 @@ func offersCoding(ae, coding string) bool {
 
 func main() {
 	rep := kit.NewReport("C18", "exploration",
-		"8 gzip blocks x (probe responses: 5 statuses x Content-Type set/unset x Content-Length right/absent x 5 pre-set Content-Encodings x 3 ETag forms x 8 write/flush patterns; static files with every subset of .gz/.br/.zst siblings) x 10 Accept-Encoding values x 4 paths x GET/HEAD, each served by a gzip site and by the same site without gzip and compared; distinct_nontrivial = outcome classes")
+		"8 gzip blocks x (probe responses: 5 statuses x Content-Type set/unset x Content-Length right/absent x 8 pre-set Content-Encodings x 3 ETag forms x 10 write/flush patterns; static files with every subset of .gz/.br/.zst siblings) x 10 Accept-Encoding values x 4 paths x GET/HEAD, each served by a gzip site and by the same site without gzip and compared; distinct_nontrivial = outcome classes")
 	kit.Init()
 	kit.RegisterProbe()
 	kit.Log.Off.Store(true)
@@ -183,7 +183,7 @@ func main() {
 
 	statuses := []string{"200", "404", "304", "204", "301"}
 	ctypes := []string{"", "hdr:Content-Type=text/plain"}
-	ces := []string{"", "gzip", "br", "zstd", "deflate"}
+	ces := []string{"", "gzip", "br", "zstd", "deflate", "x-gzip", "GZIP", "br, gzip"} // (also a legacy name, another letter case, two codings)
 	etags := []string{"", "hdr:ETag=\"abc\"", "hdr:ETag=W/\"abc\""}
 	type pattern struct {
 		name string
@@ -199,6 +199,10 @@ func main() {
 		{"no-body", nil, 0},
 		{"big", []string{"write:5000xa"}, 5000},
 		{"short", []string{"write:5xa"}, 5},
+		// an informational header (Early Hints) before the final one; a second WriteHeader after the body has begun
+		// (net/http ignores the latter; whatever wraps the writer must not change its mind because of it)
+		{"early-hints-first", []string{"write:200xa"}, 200},
+		{"writeheader-again-after-write", []string{"write:100xa", "status:200", "write:100xb"}, 200},
 	}
 	paths := []string{"/x", "/x.txt", "/n/x", "/x.png"}
 	type reqSpec struct {
@@ -230,6 +234,9 @@ func main() {
 								}
 								ops = append(ops, pt.ops...)
 							} else {
+								if pt.name == "early-hints-first" {
+									ops = append(ops, "status:103")
+								}
 								ops = append(ops, "status:"+st)
 								if st == "204" || st == "304" {
 									// no body allowed
